@@ -55,7 +55,8 @@ class PrecRecorder:
         self._patched = []
 
     def state(self):
-        return {n: [int(c.prec), int(c.dps)] for n, c in self.ctx.items()}
+        return {n: [int(c.prec), int(c.dps), int(bool(getattr(c, "pretty", False))),
+                    int(bool(getattr(c, "trap_complex", False)))] for n, c in self.ctx.items()}
 
     def log(self, ev, **kw):
         e = {"ev": ev}
